@@ -3,6 +3,7 @@ package main
 import (
 	"fmt"
 	"net/netip"
+	"sort"
 	"time"
 
 	"github.com/uhppoted/uhppote-core/types"
@@ -63,7 +64,13 @@ func runC17(o Opts) error {
 			case 2: // DeviceList, then modify the returned map and the values in it
 				m := u.DeviceList()
 				lists = append(lists, m)
-				for id, d := range m {
+				mids := []uint32{}
+				for id := range m {
+					mids = append(mids, id)
+				}
+				sort.Slice(mids, func(a, b int) bool { return mids[a] < mids[b] }) // map order must not drive the PRNG
+				for _, id := range mids {
+					d := m[id]
 					switch r.Intn(4) {
 					case 0:
 						d.Address = types.ControllerAddr{AddrPort: netip.MustParseAddrPort("10.99.99.99:9")}
@@ -109,6 +116,24 @@ func runC17(o Opts) error {
 			}
 		}
 	}
+	// the operations whose arguments carry maps or slices (card doors - also partial and nil maps -, profile weekdays and
+	// segments, task weekdays, reader map, IP slices): the argument is compared structurally before and after the call
+	probes := 0
+	nProbe := 60
+	if o.Tier == "thorough" {
+		nProbe = 2000
+	}
+	for i := 0; i < nProbe; i++ {
+		for _, which := range []int{1, 12, 16, 19, 29} {
+			id := genID(r)
+			cfg := Cfg{Devices: []DevCfg{{ID: id, Addr: netip.MustParseAddrPort("10.0.0.1:60000"), Proto: "udp"}}}
+			oc := genOp(r, which, id, i%3 == 0)
+			reply := genReply(r, oc.Resp, id, 0, nil)
+			apiCase(s, cfg, oc, Script{Kind: "datagrams", Datagrams: [][]byte{reply}}, "argument-probe/"+oc.Name, nil, true)
+			probes++
+		}
+	}
+	s.Extra["argument_probes"] = probes
 	s.Extra["mutation_steps"] = mutations
 	s.Extra["buffer_overwrites_checked"] = scribbles
 
